@@ -65,3 +65,16 @@ Definition process_loaded_object (fills keys : list field) (g : grammar) (c : co
       end
   | _ => None
   end.
+
+(* every node of a parse result (the node itself and all its descendants) *)
+Fixpoint subtrees (t : tree) : list tree :=
+  t :: match t with
+       | NT _ kids => flat_map subtrees kids
+       | T _ _ _ _ => []
+       end.
+Fixpoint res_subtrees (r : res) : list tree :=
+  match r with
+  | RNone => []
+  | RTree t => subtrees t
+  | RList l => flat_map res_subtrees l
+  end.
